@@ -41,7 +41,10 @@ META = {
                   "prefix and alias applied), prefixes concatenate outer-first, and flattening the modifiers "
                   "agrees with composing them on the documented forms (witnesses of disagreement elsewhere); a "
                   "module body is evaluated at most once per engine, and exactly once as soon as a request that "
-                  "gets as far as running needs it, whatever failed before; the constants of the mangling and "
+                  "gets as far as running needs it, whatever failed before; a provided definition of a module is "
+                  "handed out bound to the module's own definition and contracted exactly when the provide form is "
+                  "contract/out, while inside the module it stays bare (contract_at_boundary_only, "
+                  "provided_def_exported); the constants of the mangling and "
                   "the fact that a file module's identity is its canonical path (try_canonicalize) are "
                   "re-extracted from modules.rs on every run and checked against the model by a theorem. "
                   "The model is hand-written; it is "
